@@ -41,6 +41,7 @@ BadEntries(n, sch, kind) ==
   \cup {E(0, x, TRUE, sch) : x \in 1..n}                \* zero identifier
   \cup {E((x % n) + 1, x, TRUE, sch) : x \in 1..n}      \* identifier rewritten to a neighbour's
   \cup (IF kind = "sk" THEN {} ELSE {E(x, x, FALSE, sch) : x \in 1..n})   \* payload no longer decodes (every 32-byte string decodes as a scalar share)
+  \cup (IF kind = "sk" THEN {} ELSE {E(0, x, FALSE, sch) : x \in 1..n})   \* a blank container: identifier 0 and an all-zero payload (a Default slot)
   \cup (IF kind = "sig" THEN {E(x, x, TRUE, OtherScheme(sch)) : x \in 1..n} ELSE {})
   \* a share of the list's own scheme carried under the MessageAugmentation label (SecretKeyShare::sign never makes
   \* one; the variant is public and every decoder accepts it)
